@@ -164,7 +164,11 @@ Section Codec.
     SQ (l_max_ever l) (r_flow r) /\ MaxB r.
 
   (* a prepared frame fits the max frame size it was prepared with *)
-  Lemma prepare_fits est maxp m q q' est' : bounds maxp m -> qfits m q ->
+  (* frames that prepare leaves as they are must fit already *)
+  Definition pre_ok (m : N) (q : qframe) : Prop :=
+    match q with QData _ _ _ => True | QHdr _ _ _ _ _ => True | QPush _ _ _ _ => True | _ => qfits m q end.
+
+  Lemma prepare_fits_weak est maxp m q q' est' : bounds maxp m -> pre_ok m q ->
     prepare enc est maxp q = Some (q', est') -> qfits m q'.
   Proof.
     intros [Hlo [Hhi Hle]] Hq. destruct q; cbn [prepare]; try (intro H; inversion H; subst; exact Hq).
@@ -184,6 +188,10 @@ Section Codec.
       + cbn [payload_len]. rewrite Hpush, u32_sub_small in H0 by lia. lia.
       + eapply Forall_impl; [|apply conts_fit; exact Hr]. intros w Hw. cbn beta in Hw. lia.
   Qed.
+
+  Lemma prepare_fits est maxp m q q' est' : bounds maxp m -> qfits m q ->
+    prepare enc est maxp q = Some (q', est') -> qfits m q'.
+  Proof. intros Hb Hq. apply prepare_fits_weak; [exact Hb|]. destruct q; cbn [pre_ok]; auto. Qed.
 
   Lemma run_script_fits : forall l est maxp m l' est', ScriptFits m maxp l ->
     run_script enc eresize est maxp l = Some (l', est') -> Forall (fun w => payload_len w <= m) (wire l').
